@@ -21,7 +21,9 @@ Clause(e) ==
      ELSE IF ~(others \subseteq SetOf(p.open)) THEN "C20:another_connection_was_closed"
      ELSE IF ~p.others_served THEN "C20:another_connections_traffic_was_disturbed"
      ELSE IF e.class \notin Valid /\ (p.served # prev.served \/ p.head # prev.head) THEN "C20:malformed_input_changed_chain_state"
-     ELSE IF e.class \notin Valid /\ p.pool # prev.pool THEN "C20:malformed_input_changed_pending_pool"
+     \* (a block taken unvalidated during a bulk download becomes the head for a moment, and C13 has the pool follow every head: pending
+     \*  transactions that conflict with it are gone after the roll-back -- the pool is not compared for that class)
+     ELSE IF e.class \notin Valid \cup {"invalid_block_in_bulk_then_a_rejected_block"} /\ p.pool # prev.pool THEN "C20:malformed_input_changed_pending_pool"
      ELSE IF e.class \notin Valid /\ (p.rows # prev.rows \/ p.buffer # prev.buffer) THEN "C20:malformed_input_changed_block_store"
      ELSE ""
 Drift(e) == LET closed == e.peer \notin SetOf(e.post.open) IN
